@@ -46,8 +46,8 @@ func cntH(q *Query, cur Map, o *FunctionOptions, args []any) (any, error) {
 // returns; ONCE runs once; under every (preemption-bounded) schedule.
 func H_C14_strategies() {
 	n := verif.Choose("rows", maxRows(2, 3)+1)
-	form := verif.Choose("form", 13)
-	if form >= 4 && form != 9 && form != 12 && n > 1+verif.Tier() {
+	form := verif.Choose("form", 16)
+	if form >= 4 && form != 9 && form < 12 && n > 1+verif.Tier() {
 		verif.Assume(false) // nested forms: one row (two in the thorough tier)
 	}
 	callsF, callsG, callsH, doneF, doneG = 0, 0, 0, 0, 0
@@ -93,6 +93,13 @@ func H_C14_strategies() {
 	case 11:
 		// qualified and unqualified calls mixed
 		sql = "SELECT a, ASYNC.vf(a) AS v, vg(a) AS u, SPINASYNC.vg(a) FROM t"
+	case 13:
+		// calls are started for every row that passed WHERE, also when the window is empty
+		sql = "SELECT a, ASYNC.vf(a) AS v FROM t LIMIT 0"
+	case 14:
+		sql = "SELECT a, SPINASYNC.vg(a) FROM t LIMIT 1 OFFSET 7"
+	case 15:
+		sql = "SELECT a, ASYNC.vf(a) AS v FROM t LIMIT 1 OFFSET 1"
 	case 12:
 		// ONCE on a function whose result is NULL (a side-effect only initialiser)
 		RegisterFunction("vnil", func(q *Query, cur Map, o *FunctionOptions, args []any) (any, error) {
@@ -153,6 +160,16 @@ func H_C14_strategies() {
 			want = append(want, Map{"a": r["a"], "s": Map{"w": float64(2)}})
 		}
 		verif.Assert(verif.Eq(got, want), "async-equals-sync")
+	case 13, 15:
+		verif.Assert(callsF == n && doneF == n, "async-called-once-per-row-and-completed")
+		var want []any
+		if form == 15 && n >= 2 {
+			want = append(want, Map{"a": rows[1]["a"], "v": f64of(rows[1]["a"]) + 1})
+		}
+		verif.Assert(verif.Eq(got, want), "async-equals-sync")
+	case 14:
+		verif.Assert(callsG == n && doneG == n, "nested-spinasync-completed")
+		verif.Assert(len(got) == 0, "spin-adds-no-column")
 	case 12:
 		want := []any{}
 		for _, r := range rows {
